@@ -1,10 +1,25 @@
 import runner
 import uper_streams
 from checks.uper_common import ASSUMPTIONS, TRUSTED
+from checks import c20
+
+
+class DerHostile(c20.DerStream):
+    """the read ops of the `der` stream (arbitrary / truncated bytes): never a panic"""
+    name = "der-hostile"
+    prefixes = ["der"]
+
+    def gen(self, rng, tier):
+        return [r for r in super().gen(rng, tier) if r.split(" ")[1].startswith("r")]
+
+    def oracle(self, req, ans):
+        if ans in ("panic", "abort", "hang") or ans.endswith(" panic"):
+            return "DER reader panicked on untrusted bytes"
+        return super().oracle(req, ans)
 
 
 class Spec(runner.Spec):
     prop = "C04"
-    streams = [uper_streams.Hostile()]
-    assumptions = ASSUMPTIONS
+    streams = [uper_streams.Hostile(), DerHostile()]
+    assumptions = ASSUMPTIONS + ["the protobuf reader is covered by the check of C17 (stream proto-hostile) once its model is integrated"]
     trusted_base = TRUSTED
